@@ -3,10 +3,11 @@ CONSTANTS
   Order <- O3
   Methods <- MBoth
   ChecksSet <- BBoth
-  Policies <- PAll
+  Policies <- PThree
   Variant = "intended"
   MaxPert = 2
   Rounds = 24
   OwnConds <- BBoth
+  ScaleRevs <- BBoth
 INVARIANTS Emit
 CHECK_DEADLOCK FALSE
